@@ -257,6 +257,62 @@ def _normalise_call(body, bi, closures):
     return True
 
 
+def _normalise_then_some(body, bi):
+    """`cond.then_some(v)` is `if cond { Some(v) } else { None }`."""
+    t = body["blocks"][bi]["term"]
+    args = t["args"]
+    if len(args) != 2 or t.get("t") is None or args[0].get("k") not in ("copy", "move") or args[0].get("p"):
+        return False
+    span = t.get("span", {"s": "", "x": False})
+    bld = _Builder(body, span)
+    dest, cont = t["dest"], t["t"]
+    none_blk = bld.block([bld.assign(copy.deepcopy(dest), bld.agg(OPTION, "None", 0, []))], bld.goto(cont))
+    some_blk = bld.block([bld.assign(copy.deepcopy(dest), bld.agg(OPTION, "Some", 1, [copy.deepcopy(args[1])]))], bld.goto(cont))
+    body["blocks"][bi]["term"] = {"k": "switch", "discr": {"l": args[0]["l"], "p": [], "ty": "bool", "k": "move"}, "targets": [[0, none_blk]],
+                                  "otherwise": some_blk, "span": span, "combinator": t["callee"]}
+    body.setdefault("normalised_combinators", []).append(t["callee"])
+    return True
+
+
+def _normalise_transpose(body, bi):
+    """Result<Option<T>, E>::transpose: Ok(Some(x)) -> Some(Ok(x)), Ok(None) -> None, Err(e) -> Some(Err(e)).  Only where the
+    receiver's variant is already being decided in this body (it is the result of a normalised combinator, not of a call):
+    `interpret(..).map(|v| cond.then_some(v)).transpose()` then reads as the three-way match it abbreviates."""
+    t = body["blocks"][bi]["term"]
+    args = t["args"]
+    if len(args) != 1 or t.get("t") is None or args[0].get("k") not in ("copy", "move") or args[0].get("p"):
+        return False
+    rl = args[0]["l"]
+    for bl in body["blocks"]:
+        tt = bl["term"]
+        if tt["k"] == "call" and not tt["dest"]["p"] and tt["dest"]["l"] == rl:
+            return False
+    span = t.get("span", {"s": "", "x": False})
+    bld = _Builder(body, span)
+    dest, cont = t["dest"], t["t"]
+    inner = {"l": rl, "p": [{"dc": 0, "name": "Ok"}, {"f": 0, "name": "0", "ty": ""}], "ty": ""}
+    none_blk = bld.block([bld.assign(copy.deepcopy(dest), bld.agg(OPTION, "None", 0, []))], bld.goto(cont))
+    tmp = bld.local("")
+    x = {"l": rl, "p": inner["p"] + [{"dc": 1, "name": "Some"}, {"f": 0, "name": "0", "ty": ""}], "ty": "", "k": "move"}
+    some_blk = bld.block([bld.assign(bld.plain(tmp), bld.agg(RESULT, "Ok", 0, [x])),
+                          bld.assign(copy.deepcopy(dest), bld.agg(OPTION, "Some", 1, [{"l": tmp, "p": [], "ty": "", "k": "move"}]))], bld.goto(cont))
+    d3 = bld.local("isize")
+    hit = bld.block([bld.assign(bld.plain(d3, "isize"), {"k": "discr", "place": inner, "adt": OPTION, "variants": VARIANTS[OPTION]})],
+                    {"k": "switch", "discr": {"l": d3, "p": [], "ty": "isize", "k": "move"}, "targets": [[0, none_blk], [1, some_blk]], "otherwise": none_blk, "span": span})
+    tmp2 = bld.local("")
+    miss = bld.block([bld.assign(bld.plain(tmp2), {"k": "through", "adt": RESULT, "variant": "Err", "op": {"l": rl, "p": [], "ty": "", "k": "move"}}),
+                      bld.assign(copy.deepcopy(dest), bld.agg(OPTION, "Some", 1, [{"l": tmp2, "p": [], "ty": "", "k": "move"}]))], bld.goto(cont))
+    d = bld.local("isize")
+    body["blocks"][bi]["stmts"].append(bld.assign(bld.plain(d, "isize"), {"k": "discr", "place": {"l": rl, "p": [], "ty": ""}, "adt": RESULT, "variants": VARIANTS[RESULT]}))
+    body["blocks"][bi]["term"] = {"k": "switch", "discr": {"l": d, "p": [], "ty": "isize", "k": "move"}, "targets": [[0, hit], [1, miss]], "otherwise": miss,
+                                  "span": span, "combinator": t["callee"]}
+    body.setdefault("normalised_combinators", []).append(t["callee"])
+    return True
+
+
+SIMPLE = {"core::bool::<impl bool>::then_some": _normalise_then_some,
+          "std::result::Result::<std::option::Option<T>, E>::transpose": _normalise_transpose}
+
 TRAVERSALS = {"std::iter::Iterator::try_for_each": "try", "std::iter::Iterator::for_each": "plain",
               "std::iter::Iterator::try_fold": "try_fold"}
 
@@ -743,6 +799,11 @@ def normalise_combinators(bodies, adts=None, cli=False):
                 t = b["blocks"][bi]["term"]
                 if t["k"] == "call" and t["callee"] in _ACTIVE and not b["blocks"][bi].get("cleanup"):
                     if _normalise_call(b, bi, closures):
+                        n += 1
+                        changed = True
+                        break
+                if t["k"] == "call" and t["callee"] in SIMPLE and not cli and not b["blocks"][bi].get("cleanup"):
+                    if SIMPLE[t["callee"]](b, bi):
                         n += 1
                         changed = True
                         break
